@@ -297,6 +297,10 @@ class XA(Sym):
             if self.ndim == 2 and o.ndim == 1 and o.shape[0] == self.shape[1]:
                 c = self.shape[1]
                 return XA(shape=self.shape, flat=[f(a, o.flat[i % c]) for i, a in enumerate(self.flat)])
+            if self.ndim == 2 and self.shape[1] == 1 and o.ndim == 1:
+                return XA(shape=(self.shape[0], o.shape[0]), flat=[f(a, b) for a in self.flat for b in o.flat])
+            if self.ndim == 1 and o.ndim == 2 and o.shape[1] == 1:
+                return XA(shape=(o.shape[0], self.shape[0]), flat=[f(a, b) for b in o.flat for a in self.flat])
             if self.ndim == 2 and o.ndim == 2 and o.shape == (self.shape[0], 1):
                 c = self.shape[1]
                 return XA(shape=self.shape, flat=[f(a, o.flat[i // c]) for i, a in enumerate(self.flat)])
@@ -393,6 +397,31 @@ class XA(Sym):
     def nonzero(self):
         return np_nonzero(self)
 
+    def mean(self, axis=None):
+        if axis is None:
+            return Fr(np_sum(self)) / self.size
+        tot = np_sum(self, axis=axis)
+        return tot / (self.shape[0] if axis in (0, -2) or self.ndim == 1 else self.shape[1])
+
+    def var(self, axis=None):
+        def var1(vs):
+            m = sum(Fr(v) for v in vs) / len(vs)
+            return sum((Fr(v) - m) ** 2 for v in vs) / len(vs)
+        if axis is None or self.ndim == 1:
+            return var1(self.flat)
+        rows = self.tolist()
+        return XA([var1(col) for col in zip(*rows)]) if axis in (0, -2) else XA([var1(r) for r in rows])
+
+    def std(self, axis=None):
+        """exact where the variance is a perfect square (zero in particular), the float square root otherwise"""
+        def sq(v):
+            try:
+                return _sqrt(v)
+            except AnalysisError:
+                return Fr(float(v) ** 0.5)
+        v = self.var(axis)
+        return XA(shape=v.shape, flat=[sq(x) for x in v.flat]) if isinstance(v, XA) else sq(v)
+
     def argsort(self, *a, **k):
         return np_argsort(self)
 
@@ -400,6 +429,21 @@ class XA(Sym):
         return self
 
     conjugate = conj
+
+    @property
+    def dtype(self):
+        return "exact"
+
+    def take(self, indices, axis=None):
+        if axis is not None:
+            raise AnalysisError("take along an axis")
+        idx = asx(indices)
+        flat = self.flat
+        return XA(shape=idx.shape, flat=[flat[self._pos(int(_num(i)), len(flat))] for i in idx.flat])
+
+    def tobytes(self):
+        """a hashable key of the content (the analysed code uses the bytes of a row as a dictionary key)"""
+        return ("bytes", self.shape, tuple(self.flat))
 
 
 def asx(x):
@@ -468,6 +512,45 @@ def np_reduce(x, f, axis=None):
     return XA([f(row) for row in rows])
 
 
+def np_all(x, axis=None):
+    a = asx(x)
+    if axis is None:
+        return all(a.flat)
+    return np_reduce(a, lambda vs: all(vs), axis)
+
+
+def np_any(x, axis=None):
+    a = asx(x)
+    if axis is None:
+        return any(a.flat)
+    return np_reduce(a, lambda vs: any(vs), axis)
+
+
+def _sqrt(v):
+    from math import isqrt
+    v = Fr(v)
+    if v < 0:
+        raise ValueError("square root of a negative number")
+    n, d = isqrt(v.numerator), isqrt(v.denominator)
+    if n * n != v.numerator or d * d != v.denominator:
+        raise AnalysisError(f"square root of {v} is not rational (the exact array model needs perfect squares)")
+    return Fr(n, d) if d != 1 else n
+
+
+def np_sqrt(x):
+    if isinstance(x, (int, float, Fr)):
+        return _sqrt(_num(x))
+    a = asx(x)
+    return XA(shape=a.shape, flat=[_sqrt(v) for v in a.flat])
+
+
+def np_allclose(a, b, rtol=1e-05, atol=1e-08, **k):
+    d = abs(asx(a) - b)
+    bb = asx(b)
+    lim = [Fr(atol) + Fr(rtol) * abs(Fr(v)) for v in (bb.flat if bb.size == d.size else list(bb.flat) * d.size)]
+    return all(Fr(x) <= l_ for x, l_ in zip(d.flat, lim))
+
+
 def np_argsort(x, *a, **k):
     v = asx(x)
     if v.ndim != 1:
@@ -491,6 +574,67 @@ def np_diff(x, *a, **k):
     if v.ndim != 1 or a or k:
         raise AnalysisError("np.diff beyond first differences of a vector")
     return XA([v.flat[i + 1] - v.flat[i] for i in range(v.size - 1)])
+
+
+def np_unique(x, axis=None, return_inverse=False, return_index=False, return_counts=False):
+    a = asx(x)
+    if axis is None:
+        items = list(a.flat)
+        mk = lambda us: XA(list(us))       # noqa: E731
+    elif axis == 0 and a.ndim == 2:
+        items = [tuple(r) for r in a.tolist()]
+        mk = lambda us: XA(shape=(len(us), a.shape[1]), flat=[v for r in us for v in r])       # noqa: E731
+    elif axis == 0 and a.ndim == 1:
+        items = list(a.flat)
+        mk = lambda us: XA(list(us))       # noqa: E731
+    else:
+        raise AnalysisError(f"np.unique(axis={axis}) of an array of shape {a.shape}")
+    us = sorted(set(items))
+    out = [mk(us)]
+    if return_index:
+        out.append(XA([items.index(u) for u in us]))
+    if return_inverse:
+        pos = {u: i for i, u in enumerate(us)}
+        out.append(XA([pos[i] for i in items]))
+    if return_counts:
+        out.append(XA([items.count(u) for u in us]))
+    return out[0] if len(out) == 1 else tuple(out)
+
+
+def np_roll(x, shift, axis=None):
+    a = asx(x)
+    shift = int(shift)
+    if a.ndim == 1 and axis in (None, 0, -1):
+        n = a.size
+        return XA([a.flat[(i - shift) % n] for i in range(n)]) if n else a.copy()
+    if a.ndim == 2 and axis in (1, -1):
+        r, c = a.shape
+        if c == 0:
+            return a.copy()
+        return XA(shape=(r, c), flat=[a.flat[i * c + (j - shift) % c] for i in range(r) for j in range(c)])
+    if a.ndim == 2 and axis in (0, -2):
+        return np_roll(a.T, shift, axis=1).T
+    raise AnalysisError(f"np.roll(axis={axis}) of an array of shape {a.shape}")
+
+
+def coo_matrix(arg, shape=None, dtype=None, **k):
+    """scipy.sparse.coo_matrix((data, (rows, cols))) / csr_matrix(...): entries at equal positions are summed"""
+    if not (isinstance(arg, tuple) and len(arg) == 2 and isinstance(arg[1], tuple) and len(arg[1]) == 2):
+        raise AnalysisError("sparse matrix constructor other than (data, (rows, cols))")
+    data, (ri, ci) = arg
+    data, ri, ci = list(asx(data).flat), [int(v) for v in asx(ri).flat], [int(v) for v in asx(ci).flat]
+    if not (len(data) == len(ri) == len(ci)):
+        raise ValueError("row, column, and data array must all be the same length")
+    acc = {}
+    for v, i, j in zip(data, ri, ci):
+        acc[(i, j)] = acc.get((i, j), 0) + v
+    if shape is None:
+        shape = (max(ri) + 1 if ri else 0, max(ci) + 1 if ci else 0)
+    return XS(shape, [(i, j, v) for (i, j), v in acc.items()], "csr")
+
+
+def sparse_namespace():
+    return Sym("scipy.sparse", coo_matrix=coo_matrix, csr_matrix=coo_matrix, csc_matrix=lambda *a, **k: coo_matrix(*a, **k).tocsc(), issparse=lambda x: isinstance(x, XS))
 
 
 def np_concatenate(seq, axis=0, **k):
@@ -567,9 +711,10 @@ def namespace(**extra):
                  sum=np_sum, count_nonzero=lambda x: sum(1 for v in asx(x).flat if v), amax=lambda x, axis=None: np_reduce(x, max, axis), max=lambda x, axis=None: np_reduce(x, max, axis),
                  amin=lambda x, axis=None: np_reduce(x, min, axis), min=lambda x, axis=None: np_reduce(x, min, axis), abs=lambda x: abs(asx(x)) if not isinstance(x, (int, float, Fr)) else abs(_num(x)),
                  absolute=lambda x: abs(asx(x)), argsort=np_argsort, diag=np_diag, diagonal=lambda x: np_diag(x), diff=np_diff, concatenate=np_concatenate, hstack=np_hstack, vstack=np_vstack,
-                 stack=np_stack, column_stack=lambda seq: np_concatenate([asx(p).reshape(-1, 1) if asx(p).ndim == 1 else asx(p) for p in seq], axis=1),
+                 unique=np_unique, roll=np_roll, stack=np_stack, column_stack=lambda seq: np_concatenate([asx(p).reshape(-1, 1) if asx(p).ndim == 1 else asx(p) for p in seq], axis=1),
                  ones=lambda s, *a, **k: _full(s, 1), zeros=lambda s, *a, **k: _full(s, 0), full=lambda s, v, *a, **k: _full(s, _num(v)), arange=lambda *a: XA(list(range(*[int(x) for x in a]))),
-                 any=lambda x: any(asx(x).flat), all=lambda x: all(asx(x).flat), logical_not=lambda x: ~asx(x), logical_and=lambda a, b: asx(a) & asx(b), logical_or=lambda a, b: asx(a) | asx(b),
+                 any=np_any, all=np_all, sqrt=np_sqrt, allclose=np_allclose, isclose=lambda a, b, **k: XA(shape=asx(a).shape, flat=[np_allclose(v, b, **k) for v in asx(a).flat]),
+                 mean=lambda x, axis=None: asx(x).mean(axis), std=lambda x, axis=None: asx(x).std(axis), var=lambda x, axis=None: asx(x).var(axis), logical_not=lambda x: ~asx(x), logical_and=lambda a, b: asx(a) & asx(b), logical_or=lambda a, b: asx(a) | asx(b),
                  iinfo=lambda t: Sym("iinfo", max={"uint16": 2 ** 16 - 1, "uint32": 2 ** 32 - 1, "int32": 2 ** 31 - 1, "int64": 2 ** 63 - 1}.get(t, 2 ** 63 - 1), min=0),
                  uint16="uint16", uint32="uint32", int32="int32", int64="int64", float64="float64", intp="int64", bool_="bool", newaxis=None, ndarray="np.ndarray",
                  matmul=matmul, dot=matmul, transpose=lambda x: asx(x).T, ravel=lambda x: asx(x).flatten(), atleast_2d=lambda x: asx(x) if asx(x).ndim == 2 else asx(x).reshape(1, -1),
@@ -721,3 +866,69 @@ class _Sub(Sym):
 
     def sum(self, axis=None):
         return self.dense.sum(axis=axis)
+
+
+# ------------------------------------------------------------------------------------------ object arrays (symbolic operator matrices)
+class ObjGrid(Sym):
+    """two-dimensional object array (np.full(shape, None) / np.empty(shape, dtype=object)): cells hold arbitrary objects; a row taken with g[i] is a live view"""
+    _is_ndarray = True
+
+    def __init__(self, shape, fill=None):
+        super().__init__("object array")
+        self.shape = (int(shape[0]), int(shape[1]))
+        self.cells = {(i, j): fill for i in range(self.shape[0]) for j in range(self.shape[1])}
+
+    @property
+    def ndim(self):
+        return 2
+
+    def _key(self, k):
+        i, j = (int(k[0]), int(k[1]))
+        i, j = i % self.shape[0] if -self.shape[0] <= i < self.shape[0] else i, j % self.shape[1] if -self.shape[1] <= j < self.shape[1] else j
+        if (i, j) not in self.cells:
+            raise IndexError(f"index {k} is out of bounds for an array of shape {self.shape}")
+        return (i, j)
+
+    def __getitem__(self, k):
+        if isinstance(k, tuple) and len(k) == 2 and all(hasattr(x, "__index__") for x in k):
+            return self.cells[self._key(k)]
+        if hasattr(k, "__index__"):
+            return _GridRow(self, int(k))
+        raise AnalysisError(f"object-array index {k!r} is not modelled")
+
+    def __setitem__(self, k, v):
+        if isinstance(k, tuple) and len(k) == 2 and all(hasattr(x, "__index__") for x in k):
+            self.cells[self._key(k)] = v
+            return
+        raise AnalysisError(f"object-array assignment at {k!r} is not modelled")
+
+    def __len__(self):
+        return self.shape[0]
+
+    def __iter__(self):
+        return iter([_GridRow(self, i) for i in range(self.shape[0])])
+
+    def ndenumerate(self):
+        return [(k, self.cells[k]) for k in sorted(self.cells)]
+
+    def tolist(self):
+        return [[self.cells[(i, j)] for j in range(self.shape[1])] for i in range(self.shape[0])]
+
+
+class _GridRow(Sym):
+    def __init__(self, grid, i):
+        super().__init__("row of an object array")
+        self.grid, self.i = grid, i
+        self.shape = (grid.shape[1],)
+
+    def __getitem__(self, j):
+        return self.grid[(self.i, j)]
+
+    def __setitem__(self, j, v):
+        self.grid[(self.i, j)] = v
+
+    def __len__(self):
+        return self.grid.shape[1]
+
+    def __iter__(self):
+        return iter([self.grid[(self.i, j)] for j in range(self.grid.shape[1])])
